@@ -24,7 +24,7 @@ import (
 
 type c12PxCell struct {
 	cell  c12Cell
-	px    string // http | socks5
+	px    string // http | socks5 | https (the HTTP proxy behind TLS: two TLS hops per connection)
 	state string // ok | down | refuse
 }
 
@@ -38,7 +38,7 @@ func c12ProxyCells() []c12PxCell {
 	for _, tc := range c12TLSCells {
 		tlsByName[tc.name] = tc
 	}
-	for _, px := range []string{"http", "socks5"} {
+	for _, px := range []string{"http", "socks5", "https"} {
 		for _, force := range []string{"-", "1", "2", "3"} {
 			h3ons := []bool{false}
 			if force == "-" {
@@ -63,6 +63,11 @@ func c12ProxyCells() []c12PxCell {
 									if state != "ok" && (tc.mtls || custom != "none" || kind != "fresh") {
 										continue
 									}
+									if px == "https" && (state != "ok" || custom != "none") {
+										// class "two TLS hops on one connection" (round 7): every force x offer x TLS cell x
+										// {fresh, clone} with the built-in handshake and the proxy up
+										continue
+									}
 									cell := c12Cell{force: force, h3on: h3on, offer: offer, tls: tc, how: "helpers-string", kind: kind, custom: custom, scheme: "https"}
 									if custom == "fp" {
 										cell.cTrust, cell.cProtos = "-", "-"
@@ -73,6 +78,9 @@ func c12ProxyCells() []c12PxCell {
 						}
 					}
 				}
+			}
+			if px == "https" {
+				continue // plain http through the https proxy: the TLS cell would govern the hop to the proxy only
 			}
 			// plain http
 			for _, offer := range []string{"plain", "h2c"} {
@@ -110,6 +118,11 @@ func TestVerif_C12_proxy(t *testing.T) {
 	}
 	defer hpRefuse.close()
 	hpRefuse.refuse.Store(true)
+	hps, err := c12StartHTTPSProxy()
+	if err != nil {
+		t.Fatalf("infrastructure: %v", err)
+	}
+	defer hps.close()
 	sp, err := c12StartSocks()
 	if err != nil {
 		t.Fatalf("infrastructure: %v", err)
@@ -209,6 +222,8 @@ func TestVerif_C12_proxy(t *testing.T) {
 				addr = "http://" + hpRefuse.addr
 			case "http/down":
 				addr = "http://" + downAddr
+			case "https/ok":
+				addr = "https://" + hps.addr
 			case "socks5/ok":
 				addr = "socks5://" + sp.addr
 			case "socks5/refuse":
@@ -225,8 +240,11 @@ func TestVerif_C12_proxy(t *testing.T) {
 		}
 		c12WrapHandshake(c, rec)
 		contacted := func() int64 {
-			return hp.connects.Load() + hp.forwards.Load() + hpRefuse.connects.Load() + hpRefuse.forwards.Load() + sp.connects.Load() + spRefuse.connects.Load()
+			return hp.connects.Load() + hp.forwards.Load() + hpRefuse.connects.Load() + hpRefuse.forwards.Load() + sp.connects.Load() + spRefuse.connects.Load() + hps.accepts.Load()
 		}
+		// the model's proxy kinds are {http, socks5}: an https proxy is the HTTP (CONNECT) proxy reached over
+		// TLS; the driver reads "https" as that kind (the hop to the proxy is governed by the same settings
+		// and the proxy's certificate is acceptable under exactly the cells the origin's is)
 		pxTok := fmt.Sprintf("%s:%s:%s", pc.px, c12B(pc.state != "down"), c12B(pc.state == "ok"))
 		h3 := cell.h3on || cell.force == "3"
 		o := w.origins[cell.offer][int(id)%2]
@@ -314,7 +332,7 @@ func TestVerif_C12_proxy(t *testing.T) {
 		}
 		s.Case(st.line, st.impl, st.propOK, class, true, human)
 	}
-	for _, must := range []string{"proxy=http/ok", "proxy=http/down", "proxy=http/refuse", "proxy=socks5/ok", "proxy=socks5/down", "proxy=socks5/refuse",
+	for _, must := range []string{"proxy=http/ok", "proxy=http/down", "proxy=http/refuse", "proxy=socks5/ok", "proxy=socks5/down", "proxy=socks5/refuse", "proxy=https/ok",
 		"force=-", "force=1", "force=2", "force=3", "custom=fp", "via=0", "via=1", "via=-", "impl:ok:h1", "impl:ok:h2", "impl:err:tls", "impl:err:other",
 		"tls=servername-mismatch", "tls=wrong-root", "tls=insecure", "tls=mtls-cert", "tls=mtls-no-cert", "second-request-after-altsvc"} {
 		if c12Hist[s][must] == 0 {
